@@ -21,8 +21,9 @@ func H_C06_FixedAccept() {
 	now := nd.Time("now")
 	e := env.New(now)
 	params := setParams(e, "p.")
-	ba := newBaseAuction("a.", auctionSpec{id: 0, status: types.AuctionStatusStarted, auctioneer: user(0), nEndTimes: 1, nSchedules: 0})
-	setAuctionSeq(e, 1)
+	const target = uint64(1)
+	ba := newBaseAuction("a.", auctionSpec{id: target, status: types.AuctionStatusStarted, auctioneer: user(0), nEndTimes: 1, nSchedules: 0})
+	setAuctionSeq(e, 3)
 	offered := ba.SellingCoin.Amount
 
 	nPrev := nd.Pick("nPrev", nd.Param("maxPrev", 2)+1)
@@ -41,7 +42,7 @@ func H_C06_FixedAccept() {
 		if nd.Pick("prev"+pi+".denom", 2) == 1 {
 			denom = denomSell
 		}
-		b := types.Bid{AuctionId: 0, Id: uint64(i + 1), Bidder: owner, Type: types.BidTypeFixedPrice,
+		b := types.Bid{AuctionId: target, Id: uint64(i + 1), Bidder: owner, Type: types.BidTypeFixedPrice,
 			Price: ba.StartPrice, Coin: sdk.NewCoin(denom, posInt("prev"+pi+".amt")), IsMatched: true}
 		setBid(e, b)
 		prev = append(prev, b)
@@ -51,17 +52,26 @@ func H_C06_FixedAccept() {
 			soldByBidder = soldByBidder.Add(sellAmtZ(b))
 		}
 	}
-	setBidSeq(e, 0, uint64(nPrev))
+	setBidSeq(e, target, uint64(nPrev))
 	nd.Assume(sold.LE(nd.ZInt(offered))) // RI R5: remainder >= 0
 	remaining := nd.ZInt(offered).Sub(sold)
 	fa := types.NewFixedPriceAuction(ba, sdk.NewCoin(denomSell, remaining.Int()))
 	setAuction(e, fa)
 
+	// the same bidder's bids in other auctions (a lower and a higher id) must not count here
+	if nd.Pick("otherLower", 2) == 1 {
+		setBid(e, types.Bid{AuctionId: 0, Id: 1, Bidder: bidder, Type: types.BidTypeFixedPrice, Price: posDec("o0.price"), Coin: sdk.NewCoin(denomSell, posInt("o0.amt")), IsMatched: true})
+		setBidSeq(e, 0, 1)
+	}
+	if nd.Pick("otherHigher", 2) == 1 {
+		setBid(e, types.Bid{AuctionId: 2, Id: 1, Bidder: bidder, Type: types.BidTypeBatchMany, Price: posDec("o2.price"), Coin: sdk.NewCoin(denomSell, posInt("o2.amt")), IsMatched: false})
+		setBidSeq(e, 2, 1)
+	}
 	// allow-list: symbolic cap for the bidder, or absent
 	allowed := nd.Pick("allowed", 2) == 1
 	capAmt := posInt("cap")
 	if allowed {
-		setAllowed(e, 0, bidder, capAmt)
+		setAllowed(e, target, bidder, capAmt)
 	}
 	// escrows per RI R5 (plus donations)
 	donS, donP := nonnegInt("donS"), nonnegInt("donP")
@@ -86,7 +96,7 @@ func H_C06_FixedAccept() {
 		nd.Assume(!price.Equal(ba.StartPrice))
 	}
 	amt := posInt("msg.amt")
-	msg := types.NewMsgPlaceBid(0, bidder, types.BidTypeFixedPrice, price, sdk.NewCoin(msgDenom, amt))
+	msg := types.NewMsgPlaceBid(target, bidder, types.BidTypeFixedPrice, price, sdk.NewCoin(msgDenom, amt))
 	nd.Assume(msg.ValidateBasic() == nil)
 	_, err := e.Msg.PlaceBid(e.Ctx, msg)
 
@@ -106,13 +116,13 @@ func H_C06_FixedAccept() {
 	)
 	nd.Assert("C06.accept-iff-reference", nd.Iff(err == nil, ref))
 
-	after := getAuction(e, 0).(*types.FixedPriceAuction)
+	after := getAuction(e, target).(*types.FixedPriceAuction)
 	if err == nil {
 		nd.Assert("C06.remainder-decremented", nd.ZInt(after.RemainingSellingCoin.Amount).EQ(remaining.Sub(wantSell)))
 		nd.Assert("C06.remainder-nonneg", !after.RemainingSellingCoin.Amount.IsNegative())
 		nd.Assert("C06.escrow-grows-by-payment", nd.ZInt(e.Bal(fa.GetPayingReserveAddress(), denomPay)).EQ(reserved.Add(nd.ZInt(donP)).Add(wantPay)))
 		nd.Assert("C06.bidder-pays-exactly", nd.ZInt(e.Bal(addr(bidder), denomPay)).EQ(nd.ZInt(balPay).Sub(wantPay)))
-		nb2, gerr := e.K.Bid.Get(e.Ctx, joinKey(0, uint64(nPrev+1)))
+		nb2, gerr := e.K.Bid.Get(e.Ctx, joinKey(target, uint64(nPrev+1)))
 		nd.Assert("C06.bid-recorded", gerr == nil)
 		if gerr == nil {
 			nd.Assert("C06.bid-recorded-terms", nd.And(nb2.Bidder == bidder, nb2.Coin.Denom == msgDenom, nb2.Coin.Amount.Equal(amt), nb2.Price.Equal(price), nb2.IsMatched))
@@ -123,7 +133,7 @@ func H_C06_FixedAccept() {
 	}
 	// earlier bids are never displaced or scaled
 	for i, b := range prev {
-		cur, gerr := e.K.Bid.Get(e.Ctx, joinKey(0, uint64(i+1)))
+		cur, gerr := e.K.Bid.Get(e.Ctx, joinKey(target, uint64(i+1)))
 		nd.Assert("C06.earlier-bid-untouched", gerr == nil && cur.Bidder == b.Bidder && cur.Coin.Denom == b.Coin.Denom && nd.And(cur.Coin.Amount.Equal(b.Coin.Amount), cur.Price.Equal(b.Price)))
 	}
 	nd.Observe("err", err)
